@@ -1,4 +1,4 @@
-import Proofs.LoadApi
+import Proofs.LoadChain
 
 /-! Helper lemmas for C03, part 6: a whole population created through `new`, referred rows first. -/
 
@@ -16,6 +16,12 @@ def rawRow (ss : List Stmt) (o : String × List Val) : Row := mkRow (attrsOf ss 
 /-- the rows of one kind among the rows created so far, in creation order -/
 def rawRows (ss : List Stmt) (order : List (String × List Val)) (k : String) : List Row :=
   (order.filter (fun o => o.1 = k)).map (rawRow ss)
+
+/-- the INSERT statements with the values of the rows -/
+def insertsOf (order : List (String × List Val)) : List Stmt := order.map (fun o => Stmt.insert o.1 none o.2)
+
+/-- the metamodel the loader builds from the schema statements followed by the INSERTs of the rows -/
+def loaded (ss : List Stmt) (order : List (String × List Val)) : Model := buildCore (ss ++ insertsOf order)
 
 theorem rawRows_snoc (ss : List Stmt) (pre : List (String × List Val)) (o : String × List Val) (k : String) :
     rawRows ss (pre ++ [o]) k = rawRows ss pre k ++ (if o.1 = k then [rawRow ss o] else []) := by
@@ -59,8 +65,16 @@ structure ApiGuards (ss : List Stmt) (order : List (String × List Val)) : Prop 
   accepted : accepted ss = true
   /-- key lists without repeats, of equal non-zero length; no reflexive association -/
   keys : ∀ a ∈ popAssocs ss, KeysOk a ∧ a.srcKeys.length = a.tgtKeys.length ∧ a.srcKeys ≠ [] ∧ a.srcKind ≠ a.tgtKind
-  /-- identifying attributes are stored, not read through a link of their own -/
-  noChain : ∀ a ∈ popAssocs ss, ∀ t ∈ a.tgtKeys, t ∉ referential (popAssocs ss) a.tgtKind
+  /-- chained keys (an identifying attribute that is itself referential in its class is read through the chain of
+      referential properties): on the loaded metamodel every attribute read ends within as many steps as there are
+      classes (no cyclic chain of key attributes) ... -/
+  readsTerminate : ∀ k i x, i < (rawRows ss order k).length →
+    (readAttr (loaded ss order) (popClasses ss).length k i x).isSome = true
+  /-- ... and the identifying values of a referred row that some row refers to can be read back (the referred row's
+      own references are not dangling) -/
+  resolved : ∀ a ∈ popAssocs ss, ∀ (i j : Nat) s t, (rawRows ss order a.srcKind)[i]? = some s →
+    (rawRows ss order a.tgtKind)[j]? = some t → matchesB a s t = true →
+    ∀ tk ∈ a.tgtKeys, readAttr (loaded ss order) (popClasses ss).length a.tgtKind j tk = some (t.get tk)
   /-- referential attributes are declared attributes of the referring class -/
   srcDeclared : ∀ a ∈ popAssocs ss, ∀ k ∈ a.srcKeys, k ∈ (attrsOf ss a.srcKind).map (·.1)
   /-- `_find_link(referred, referring, rel, link.phrase)` answers with the association itself, unswapped -/
@@ -83,6 +97,7 @@ structure ApiInv (ss : List Stmt) (pre : List (String × List Val)) (m : Model) 
   rows : ∀ k, rowsOf m.classes k = (rawRows ss pre k).map (stripRow (referential (popAssocs ss) k))
   assocs : m.assocs = (popAssocs ss).map (fun a =>
     (a, nestedJoin a (rawRows ss pre a.srcKind) (rawRows ss pre a.tgtKind)))
+  ncls : m.classes.length = (popClasses ss).length
 
 theorem map_fst_assocs (ss : List Stmt) (f : AssocStmt → Links) :
     ((popAssocs ss).map (fun a => (a, f a))).map (·.1) = popAssocs ss := by
@@ -202,216 +217,8 @@ end Pyx.Load
 
 namespace Pyx.Load
 
-theorem relatedTo_eq_addSource (L : Links) (i : Nat) (hs : List Nat) (h : L.tgt i = []) :
-    relatedTo L i hs = addSource L i hs := by
-  apply Links.ext'
-  · intro z; rfl
-  · intro z
-    simp only [relatedTo, addSource]
-    by_cases hz : z = i
-    · simp [hz, h]
-    · simp [hz]
-
-section step
-variable (ss : List Stmt) (order pre suf : List (String × List Val)) (o : String × List Val)
-variable (g : ApiGuards ss order) (horder : order = pre ++ o :: suf)
-include g horder
-
-/-- the rows of the referred class that exist when a referring row is created are among the final ones -/
-theorem tgt_prefix (a : AssocStmt) :
-    rawRows ss order a.tgtKind = rawRows ss pre a.tgtKind ++ rawRows ss (o :: suf) a.tgtKind := by
-  rw [horder, rawRows_append]
-
-theorem src_final (a : AssocStmt) (hk : a.srcKind = o.1) :
-    rawRows ss order a.srcKind = rawRows ss pre a.srcKind ++ rawRow ss o :: rawRows ss suf a.srcKind := by
-  rw [horder, rawRows_append]
-  congr 1
-  have : o :: suf = [o] ++ suf := rfl
-  rw [this, rawRows_append]
-  simp [rawRows, hk]
-
-end step
-
-theorem apiNew_step (ss : List Stmt) (order pre suf : List (String × List Val)) (o : String × List Val)
-    (g : ApiGuards ss order) (horder : order = pre ++ o :: suf) (m : Model) (inv : ApiInv ss pre m) :
-    ∃ m', apiNew m o.1 o.2 = (m', .ok) ∧ ApiInv ss (pre ++ [o]) m' := by
-  have ho : o ∈ order := by rw [horder]; simp
-  obtain ⟨hdecl, hlen⟩ := g.declared o ho
-  obtain ⟨c0, hc0⟩ := Option.isSome_iff_exists.mp hdecl
-  have hattrsOf : attrsOf ss o.1 = c0.attrs := by simp [attrsOf, hc0]
-  have hcm := inv.attrs o.1
-  rw [hc0] at hcm
-  obtain ⟨c, hc, hca⟩ : ∃ c, findCls m.classes o.1 = some c ∧ c.attrs = c0.attrs := by
-    cases h : findCls m.classes o.1 with
-    | none => simp [h] at hcm
-    | some c => exact ⟨c, rfl, by simpa [h] using hcm⟩
-  have hall : m.assocs.map (·.1) = popAssocs ss := by rw [inv.assocs]; exact map_fst_assocs ss _
-  have hs : newGiven c o.2 = rawRow ss o := by simp [newGiven, rawRow, mkRow, hattrsOf, hca]
-  have hrows : c.rows = (rawRows ss pre o.1).map (stripRow (referential (popAssocs ss) o.1)) := by
-    have := inv.rows o.1
-    simpa [rowsOf, hc] using this
-  have hi : c.rows.length = (rawRows ss pre o.1).length := by rw [hrows]; simp
-  have hnames : (rawRow ss o).map (·.1) = (attrsOf ss o.1).map (·.1) := names_mkRow_none _ _ hlen
-  -- what `relateLinks` needs to know
-  have hready : ∀ q p, m.assocs[q]? = some p →
-      LinkReady (m.assocs.map (·.1)) o.1 (newGiven c o.2) c.rows.length
-        (withRow m o.1 (stripRow (referential (m.assocs.map (·.1)) o.1) (newGiven c o.2))) (rawRows ss pre) q p.1 p.2 := by
-    intro q p hq
-    rw [inv.assocs, List.getElem?_map] at hq
-    cases haq : (popAssocs ss)[q]? with
-    | none => simp [haq] at hq
-    | some a =>
-      simp only [haq, Option.map_some, Option.some.injEq] at hq
-      subst hq
-      have ha : a ∈ popAssocs ss := List.mem_of_getElem? haq
-      obtain ⟨hk1, hk2, hk3, hk4⟩ := g.keys a ha
-      rw [hall, hs]
-      refine ⟨hk1, hk2, hk3, hk4, ha, fun _ => g.resolves q a haq, ?_, ?_, ?_, ?_, ?_, ?_⟩
-      · intro hk sk hsk
-        rw [hnames, ← hk]
-        exact g.srcDeclared a ha sk hsk
-      · intro hk
-        have hne : ¬ a.tgtKind = o.1 := fun h => hk4 (hk.trans h.symm)
-        simp only [withRow, rowsOf_addRow, hne, if_false]
-        rw [inv.rows a.tgtKind]; simp
-      · -- the query's test reads stored identifying values
-        intro hk hnn m' hag j t htj
-        have hne : ¬ a.tgtKind = o.1 := fun h => hk4 (hk.trans h.symm)
-        have hst' : m'.assocs.map (·.1) = popAssocs ss := by
-          rw [hag.stmts]; exact hall
-        obtain ⟨f, hf⟩ := fuelOf_pos (withRow m o.1 (stripRow (referential (popAssocs ss) o.1) (rawRow ss o)))
-        rw [hf]
-        apply rowMatches_nochain a m' f _ t j (by rw [hst']; exact g.noChain a ha) _ hnn
-        rw [hst', hag.classes]
-        simp only [withRow, rowsOf_addRow, hne, if_false]
-        rw [inv.rows a.tgtKind, List.getElem?_map, htj]
-        rfl
-      · -- as a referred row the new row has a stored (non-referential) identifying attribute: nothing to relate
-        intro hk m' _
-        have := relateLink_source_skip a m' (refsOf (popAssocs ss) o.1 (rawRow ss o)) (popAssocs ss) c.rows.length
-          hk1 hk2 hk3
-          (by
-            intro x hx
-            obtain ⟨p, hp, rfl⟩ := List.mem_map.mp hx
-            have := (List.mem_filter.mp hp).2
-            rw [hk]
-            simpa using this)
-          (g.noChain a ha)
-        rw [hk] at this
-        exact this
-      · intro hk j hj
-        simp only
-        refine ⟨?_, ?_, ?_⟩
-        · intro hmem
-          have := mem_nestedJoin_src_lt a _ _ j _ hmem
-          rw [hi, ← hk] at this
-          exact Nat.lt_irrefl _ this
-        · intro hsm
-          -- the referred row `j` may have at most one referring row: none so far, since the new one matches
-          obtain ⟨t, htj, hmt⟩ := (mem_selectIdx_zero _ _ j).mp hj
-          have htm : t ∈ rawRows ss order a.tgtKind := by
-            rw [tgt_prefix ss order pre suf o g horder a]
-            exact List.mem_append_left _ (List.mem_of_getElem? htj)
-          have hcard := g.cardSrc a ha hsm t htm
-          rw [src_final ss order pre suf o g horder a hk, selectIdx_append] at hcard
-          have hone : (selectIdx (0 + (rawRows ss pre a.srcKind).length) (rawRow ss o :: rawRows ss suf a.srcKind)
-              (fun s => matchesB a s t)).length ≥ 1 := by
-            simp only [selectIdx, enumFrom, List.filterMap_cons, hmt, if_true, List.length_cons]
-            omega
-          have hzero : (selectIdx 0 (rawRows ss pre a.srcKind) (fun s => matchesB a s t)).length = 0 := by
-            simp only [List.length_append] at hcard
-            omega
-          have hnil := List.length_eq_zero_iff.mp hzero
-          simp only [nestedJoin, htj]
-          exact hnil
-        · rw [hi, ← hk]
-          rw [nestedJoin_tgt_out]
-          exact List.not_mem_nil
-      · intro hk htm hne
-        simp only
-        refine ⟨by rw [hi, ← hk]; exact nestedJoin_tgt_out a _ _, ?_⟩
-        have hsm : rawRow ss o ∈ rawRows ss order a.srcKind := by
-          rw [src_final ss order pre suf o g horder a hk]; simp
-        have := g.cardTgt a ha htm (rawRow ss o) hsm
-        rw [tgt_prefix ss order pre suf o g horder a, selectIdx_append, List.length_append] at this
-        omega
-  refine ⟨_, apiNew_eq m o.1 o.2 c hc (rawRows ss pre) hready, ?_⟩
-  rw [hall, hs]
-  refine ⟨?_, ?_, ?_⟩
-  · intro k
-    simp only [findCls_addRow]
-    rw [← inv.attrs k]
-    cases findCls m.classes k with
-    | none => rfl
-    | some d => by_cases hk : k = o.1 <;> simp [hk]
-  · intro k
-    simp only [rowsOf_addRow, rawRows_snoc, hc]
-    by_cases hk : k = o.1
-    · subst hk
-      simp [hrows]
-    · have : ¬ o.1 = k := fun e => hk e.symm
-      simp only [hk, this, if_false, List.append_nil]
-      exact inv.rows k
-  · simp only
-    rw [inv.assocs, List.map_map]
-    apply List.map_congr_left
-    intro a ha
-    obtain ⟨hk1, hk2, hk3, hk4⟩ := g.keys a ha
-    simp only [Function.comp, stepAssoc, rawRows_snoc]
-    by_cases hk : a.srcKind = o.1
-    · have hne : ¬ o.1 = a.tgtKind := fun h => hk4 (hk.trans h)
-      rw [if_pos hk, if_pos hk.symm, if_neg hne, List.append_nil]
-      rw [relatedTo_eq_addSource _ _ _ (by rw [hi, ← hk]; exact nestedJoin_tgt_out a _ _)]
-      rw [hi, ← hk, nestedJoin_snoc_src]
-    · have hne' : ¬ o.1 = a.srcKind := fun e => hk e.symm
-      rw [if_neg hk, if_neg hne', List.append_nil]
-      by_cases ht : o.1 = a.tgtKind
-      · rw [if_pos ht]
-        rw [nestedJoin_snoc_tgt_nomatch a _ _ _ (g.referredFirst a ha pre o suf horder ht)]
-      · rw [if_neg ht, List.append_nil]
-
-end Pyx.Load
-
-namespace Pyx.Load
-
-theorem apiRun_spec (ss : List Stmt) (order : List (String × List Val)) (g : ApiGuards ss order)
-    (suf : List (String × List Val)) :
-    ∀ (pre : List (String × List Val)) (m : Model), order = pre ++ suf → ApiInv ss pre m →
-      ∃ m', apiRun suf m = (m', suf.map (fun _ => Outcome.ok)) ∧ ApiInv ss order m' := by
-  induction suf with
-  | nil =>
-    intro pre m horder inv
-    refine ⟨m, rfl, ?_⟩
-    rw [horder, List.append_nil]
-    exact inv
-  | cons o suf ih =>
-    intro pre m horder inv
-    obtain ⟨m1, h1, inv1⟩ := apiNew_step ss order pre suf o g horder m inv
-    obtain ⟨m', h2, inv'⟩ := ih (pre ++ [o]) m1 (by rw [horder]; simp) inv1
-    refine ⟨m', ?_, inv'⟩
-    simp only [apiRun, h1, h2, List.map_cons]
-
-theorem apiInv_init (ss : List Stmt) : ApiInv ss [] (schemaModel ss) := by
-  refine ⟨?_, ?_, ?_⟩
-  · intro k
-    simp only [schemaModel, findCls_popUniques]
-    cases findCls (popClasses ss) k <;> simp [applyUniqs]
-  · intro k
-    simp only [schemaModel, rowsOf, findCls_popUniques, rawRows, List.filter_nil, List.map_nil]
-    cases h : findCls (popClasses ss) k with
-    | none => rfl
-    | some c =>
-      have := (popClasses_rows_nil ss c (List.mem_of_find?_eq_some h)).1
-      simp [applyUniqs, this]
-  · simp only [schemaModel]
-    apply List.map_congr_left
-    intro a _
-    simp [rawRows, nestedJoin_nil_src]
-
 /-! ### the same rows loaded from INSERT statements -/
 
-/-- the INSERT statements with the values of the rows -/
-def insertsOf (order : List (String × List Val)) : List Stmt := order.map (fun o => Stmt.insert o.1 none o.2)
 
 theorem popClasses_inserts (order : List (String × List Val)) : popClasses (insertsOf order) = [] := by
   unfold popClasses insertsOf
@@ -486,5 +293,830 @@ theorem rowsOf_loaded (ss : List Stmt) (order : List (String × List Val)) (g : 
       rw [hk, hc] at this
       cases this
     simp [rawRows, hnil]
+
+
+end Pyx.Load
+
+namespace Pyx.Load
+
+/-! ### facts about the loaded metamodel, and reads of existing rows in the API states -/
+
+theorem attrNames_eq (ss : List Stmt) (k : String) : attrNames (popClasses ss) k = (attrsOf ss k).map (·.1) := by
+  unfold attrNames attrsOf
+  cases findCls (popClasses ss) k <;> rfl
+
+theorem tgtKeys_declared (ss : List Stmt) (hacc : accepted ss = true) (a : AssocStmt) (ha : a ∈ popAssocs ss) :
+    ∀ tk ∈ a.tgtKeys, tk ∈ (attrsOf ss a.tgtKind).map (·.1) := by
+  have hs : Stmt.assoc a ∈ ss := by
+    unfold popAssocs at ha
+    obtain ⟨s, hs, hsa⟩ := List.mem_filterMap.mp ha
+    cases s with
+    | assoc b => simp only [Option.some.injEq] at hsa; subst hsa; exact hs
+    | cls _ _ => simp at hsa
+    | uniq _ _ _ => simp at hsa
+    | insert _ _ _ => simp at hsa
+  unfold accepted at hacc
+  simp only [Bool.and_eq_true, List.all_eq_true] at hacc
+  have := hacc.2 _ hs
+  simp only [Bool.and_eq_true, List.all_eq_true, List.contains_iff_mem] at this
+  intro tk htk
+  rw [← attrNames_eq]
+  exact this.2 tk htk
+
+/-- the loader's rows for schema + INSERTs, from the basic guards only -/
+theorem loaded_rows' (ss : List Stmt) (order : List (String × List Val))
+    (hschema : ∀ s ∈ ss, ∀ k ns vs, s ≠ .insert k ns vs)
+    (hdecl : ∀ o ∈ order, (findCls (popClasses ss) o.1).isSome = true ∧ o.2.length = (attrsOf ss o.1).length)
+    (k : String) : rowsOf (loaded ss order).classes k = rawRows ss order k := by
+  unfold loaded
+  rw [rowsOf_buildCore]
+  unfold clsSpec
+  rw [popClasses_append, popClasses_inserts, List.append_nil, insOf_append, insOf_schema ss hschema,
+    List.nil_append, insOf_inserts]
+  cases hc : findCls (popClasses ss) k with
+  | some c =>
+    simp only [rawRows, List.map_map]
+    apply List.map_congr_left
+    intro o ho
+    have hk : o.1 = k := by simpa using (List.mem_filter.mp ho).2
+    simp [rawRow, attrsOf, hk, hc]
+  | none =>
+    simp only
+    have hnil : order.filter (fun o => o.1 = k) = [] := by
+      rw [List.filter_eq_nil_iff]
+      intro o ho hk
+      have := (hdecl o ho).1
+      simp only [decide_eq_true_eq] at hk
+      rw [hk, hc] at this
+      cases this
+    simp [rawRows, hnil]
+
+theorem loaded_assocs' (ss : List Stmt) (order : List (String × List Val))
+    (hschema : ∀ s ∈ ss, ∀ k ns vs, s ≠ .insert k ns vs)
+    (hkeys : ∀ a ∈ popAssocs ss, KeysOk a)
+    (hdecl : ∀ o ∈ order, (findCls (popClasses ss) o.1).isSome = true ∧ o.2.length = (attrsOf ss o.1).length) :
+    (loaded ss order).assocs = (popAssocs ss).map (fun a =>
+      (a, nestedJoin a (rawRows ss order a.srcKind) (rawRows ss order a.tgtKind))) := by
+  have hk : ∀ a ∈ popAssocs (ss ++ insertsOf order), KeysOk a := by
+    intro a ha
+    rw [popAssocs_append, popAssocs_inserts, List.append_nil] at ha
+    exact hkeys a ha
+  have hr := loaded_rows' ss order hschema hdecl
+  unfold loaded at hr ⊢
+  rw [buildCore_assocs _ hk, popAssocs_append, popAssocs_inserts, List.append_nil]
+  simp only [hr]
+
+section loadedFacts
+variable (ss : List Stmt) (order : List (String × List Val)) (g : ApiGuards ss order)
+include g
+
+theorem loaded_assocs :
+    (loaded ss order).assocs = (popAssocs ss).map (fun a =>
+      (a, nestedJoin a (rawRows ss order a.srcKind) (rawRows ss order a.tgtKind))) := by
+  have hk : ∀ a ∈ popAssocs (ss ++ insertsOf order), KeysOk a := by
+    intro a ha
+    rw [popAssocs_append, popAssocs_inserts, List.append_nil] at ha
+    exact (g.keys a ha).1
+  unfold loaded
+  rw [buildCore_assocs _ hk, popAssocs_append, popAssocs_inserts, List.append_nil]
+  simp only [rowsOf_loaded ss order g]
+
+theorem loaded_assocs_fst : (loaded ss order).assocs.map (·.1) = popAssocs ss := by
+  rw [loaded_assocs ss order g]; exact map_fst_assocs ss _
+
+theorem loaded_rows (k : String) : rowsOf (loaded ss order).classes k = rawRows ss order k :=
+  rowsOf_loaded ss order g k
+
+/-- on the loaded metamodel a read that ends gives the value the INSERT wrote, or `None` -/
+theorem readAttr_loaded_value : ∀ (f : Nat) (k : String) (u : Nat) (x : String) (r : Row) (v : Val),
+    (rawRows ss order k)[u]? = some r → readAttr (loaded ss order) f k u x = some v → v = r.get x ∨ v = .none := by
+  intro f
+  induction f with
+  | zero => intro k u x r v _ h; simp [readAttr] at h
+  | succ f ih =>
+    intro k u x r v hr h
+    simp only [readAttr] at h
+    by_cases hx : (referential ((loaded ss order).assocs.map (·.1)) k).contains x
+    · simp only [hx, if_true] at h
+      rcases readChain_cases (readAttr (loaded ss order) f) k u x (loaded ss order).assocs.reverse with
+        ⟨h1, _⟩ | ⟨p, hp, hk, tk, j, hmem, hhead, hval⟩
+      · rw [h1] at h; cases h; exact Or.inr rfl
+      · rw [List.mem_reverse, loaded_assocs ss order g] at hp
+        obtain ⟨a, ha, rfl⟩ := List.mem_map.mp hp
+        simp only at hk hmem hhead hval
+        have hj : j ∈ (nestedJoin a (rawRows ss order a.srcKind) (rawRows ss order a.tgtKind)).tgt u :=
+          List.mem_of_mem_head? hhead
+        obtain ⟨s, t, hs, ht, hm⟩ := (mem_nestedJoin_tgt a _ _ u j).mp hj
+        rw [hk, hr] at hs
+        cases hs
+        rw [hval] at h
+        have heq := ((matchesB_iff a r t).mp hm (x, tk) hmem).2
+        simp only at heq
+        rcases ih a.tgtKind j tk t v ht h with hv | hv
+        · exact Or.inl (by rw [hv, heq])
+        · exact Or.inr hv
+    · simp only [hx, Bool.false_eq_true, if_false, Option.some.injEq] at h
+      rw [loaded_rows ss order g, hr] at h
+      exact Or.inl h.symm
+
+/-- a referred row created later is not matched by a referring row that existed before it -/
+theorem later_nomatch (pre suf : List (String × List Val)) (horder : order = pre ++ suf) (a : AssocStmt)
+    (ha : a ∈ popAssocs ss) (s t : Row) (hs : s ∈ rawRows ss pre a.srcKind) (ht : t ∈ rawRows ss suf a.tgtKind) :
+    matchesB a s t = false := by
+  unfold rawRows at ht
+  obtain ⟨r, hr, rfl⟩ := List.mem_map.mp ht
+  obtain ⟨hrm, hrk⟩ := List.mem_filter.mp hr
+  obtain ⟨s1, s2, hsplit⟩ := List.append_of_mem hrm
+  have hord : order = (pre ++ s1) ++ r :: s2 := by rw [horder, hsplit]; simp
+  apply g.referredFirst a ha (pre ++ s1) r s2 hord (by simpa using hrk)
+  rw [rawRows_append]
+  exact List.mem_append_left _ hs
+
+/-- the referred rows of an existing referring row are the ones that existed when it was created -/
+theorem final_tgt_eq (pre suf : List (String × List Val)) (horder : order = pre ++ suf) (a : AssocStmt)
+    (ha : a ∈ popAssocs ss) (u : Nat) (hu : u < (rawRows ss pre a.srcKind).length) :
+    (nestedJoin a (rawRows ss order a.srcKind) (rawRows ss order a.tgtKind)).tgt u =
+      (nestedJoin a (rawRows ss pre a.srcKind) (rawRows ss pre a.tgtKind)).tgt u := by
+  have hS : (rawRows ss order a.srcKind)[u]? = some (rawRows ss pre a.srcKind)[u] := by
+    have e : rawRows ss order a.srcKind = rawRows ss pre a.srcKind ++ rawRows ss suf a.srcKind := by
+      rw [horder, rawRows_append]
+    rw [e, List.getElem?_append_left hu]
+    exact List.getElem?_eq_getElem hu
+  have hSp : (rawRows ss pre a.srcKind)[u]? = some (rawRows ss pre a.srcKind)[u] := List.getElem?_eq_getElem hu
+  have eT : rawRows ss order a.tgtKind = rawRows ss pre a.tgtKind ++ rawRows ss suf a.tgtKind := by
+    rw [horder, rawRows_append]
+  simp only [nestedJoin, hS, hSp]
+  rw [eT]
+  have hsel := selectIdx_append 0 (rawRows ss pre a.tgtKind) (rawRows ss suf a.tgtKind)
+    (fun t => matchesB a (rawRows ss pre a.srcKind)[u] t)
+  unfold selectIdx at hsel
+  rw [hsel]
+  have hnil : selectIdx (0 + (rawRows ss pre a.tgtKind).length) (rawRows ss suf a.tgtKind)
+      (fun t => matchesB a (rawRows ss pre a.srcKind)[u] t) = [] := by
+    rw [selectIdx_congr _ _ _ (fun _ => false), selectIdx_false]
+    intro t ht
+    exact later_nomatch ss order g pre suf horder a ha _ t (List.getElem_mem hu) ht
+  unfold selectIdx at hnil
+  rw [hnil, List.append_nil]
+
+theorem final_tgt_below (pre suf : List (String × List Val)) (horder : order = pre ++ suf) (a : AssocStmt)
+    (ha : a ∈ popAssocs ss) (u : Nat) (hu : u < (rawRows ss pre a.srcKind).length) (j : Nat)
+    (hj : j ∈ (nestedJoin a (rawRows ss order a.srcKind) (rawRows ss order a.tgtKind)).tgt u) :
+    j < (rawRows ss pre a.tgtKind).length := by
+  rw [final_tgt_eq ss order g pre suf horder a ha u hu] at hj
+  obtain ⟨_, t, _, ht, _⟩ := (mem_nestedJoin_tgt a _ _ u j).mp hj
+  exact (List.getElem?_eq_some_iff.mp ht).1
+
+/-- a state of the API route in which the rows `pre` exist: same association statements as the schema, the
+    stored rows of `pre`, and for every existing row the referred rows it has on the loaded metamodel -/
+structure ConsBelow (pre : List (String × List Val)) (m' : Model) : Prop where
+  stmts : m'.assocs.map (·.1) = popAssocs ss
+  rows : ∀ k (u : Nat) r, (rawRows ss pre k)[u]? = some r →
+    (rowsOf m'.classes k)[u]? = some (stripRow (referential (popAssocs ss) k) r)
+  tgt : ∀ p' ∈ m'.assocs, ∀ u, u < (rawRows ss pre p'.1.srcKind).length →
+    p'.2.tgt u = (nestedJoin p'.1 (rawRows ss order p'.1.srcKind) (rawRows ss order p'.1.tgtKind)).tgt u
+
+/-- in such a state an existing row reads as on the loaded metamodel -/
+theorem readAttr_cons (pre suf : List (String × List Val)) (horder : order = pre ++ suf) (m' : Model)
+    (hc : ConsBelow ss order pre m') : ∀ (f : Nat) (k : String) (u : Nat) (x : String),
+    u < (rawRows ss pre k).length → readAttr m' f k u x = readAttr (loaded ss order) f k u x := by
+  intro f
+  induction f with
+  | zero => intro _ _ _ _; rfl
+  | succ f ih =>
+    intro k u x hu
+    simp only [readAttr, hc.stmts, loaded_assocs_fst ss order g]
+    by_cases hx : (referential (popAssocs ss) k).contains x
+    · simp only [hx, if_true]
+      apply readChain_congr
+      · rw [List.map_reverse, List.map_reverse, hc.stmts, loaded_assocs_fst ss order g]
+      · intro q p p' hq hq' hk
+        have hp : p ∈ (loaded ss order).assocs := List.mem_reverse.mp (List.mem_of_getElem? hq)
+        have hp' : p' ∈ m'.assocs := List.mem_reverse.mp (List.mem_of_getElem? hq')
+        have hfst : p'.1 = p.1 := by
+          have h1 : (m'.assocs.reverse.map (·.1))[q]? = ((loaded ss order).assocs.reverse.map (·.1))[q]? := by
+            rw [List.map_reverse, List.map_reverse, hc.stmts, loaded_assocs_fst ss order g]
+          simp only [List.getElem?_map, hq, hq', Option.map_some, Option.some.injEq] at h1
+          exact h1
+        rw [loaded_assocs ss order g] at hp
+        obtain ⟨a, _, rfl⟩ := List.mem_map.mp hp
+        simp only at hk hfst ⊢
+        have := hc.tgt p' hp' u (by rw [hfst, hk]; exact hu)
+        rw [this, hfst]
+      · intro q p j tk hq hk hhead
+        have hp : p ∈ (loaded ss order).assocs := List.mem_reverse.mp (List.mem_of_getElem? hq)
+        rw [loaded_assocs ss order g] at hp
+        obtain ⟨a, ha, rfl⟩ := List.mem_map.mp hp
+        simp only at hk hhead ⊢
+        apply ih
+        exact final_tgt_below ss order g pre suf horder a ha u (by rw [hk]; exact hu) j (List.mem_of_mem_head? hhead)
+    · simp only [hx, Bool.false_eq_true, if_false, Option.some.injEq]
+      have hr : (rawRows ss pre k)[u]? = some (rawRows ss pre k)[u] := List.getElem?_eq_getElem hu
+      rw [hc.rows k u _ hr, loaded_rows ss order g]
+      have hro : (rawRows ss order k)[u]? = some (rawRows ss pre k)[u] := by
+        have e : rawRows ss order k = rawRows ss pre k ++ rawRows ss suf k := by rw [horder, rawRows_append]
+        rw [e, List.getElem?_append_left hu]
+        exact hr
+      rw [hro]
+      simp only [Option.getD_some]
+      exact get_stripRow _ _ _ (by simpa using hx)
+
+end loadedFacts
+
+end Pyx.Load
+
+namespace Pyx.Load
+
+theorem relatedTo_eq_addSource (L : Links) (i : Nat) (hs : List Nat) (h : L.tgt i = []) :
+    relatedTo L i hs = addSource L i hs := by
+  apply Links.ext'
+  · intro z; rfl
+  · intro z
+    simp only [relatedTo, addSource]
+    by_cases hz : z = i
+    · simp [hz, h]
+    · simp [hz]
+
+section step
+variable (ss : List Stmt) (order pre suf : List (String × List Val)) (o : String × List Val)
+variable (g : ApiGuards ss order) (horder : order = pre ++ o :: suf)
+include g horder
+
+/-- the rows of the referred class that exist when a referring row is created are among the final ones -/
+theorem tgt_prefix (a : AssocStmt) :
+    rawRows ss order a.tgtKind = rawRows ss pre a.tgtKind ++ rawRows ss (o :: suf) a.tgtKind := by
+  rw [horder, rawRows_append]
+
+theorem src_final (a : AssocStmt) (hk : a.srcKind = o.1) :
+    rawRows ss order a.srcKind = rawRows ss pre a.srcKind ++ rawRow ss o :: rawRows ss suf a.srcKind := by
+  rw [horder, rawRows_append]
+  congr 1
+  have : o :: suf = [o] ++ suf := rfl
+  rw [this, rawRows_append]
+  simp [rawRows, hk]
+
+end step
+
+theorem sum_ge_length (l : List Nat) (h : ∀ x ∈ l, 1 ≤ x) : l.length ≤ l.sum := by
+  induction l with
+  | nil => simp
+  | cons x xs ih =>
+    have := h x List.mem_cons_self
+    have := ih (fun y hy => h y (List.mem_cons_of_mem _ hy))
+    simp only [List.length_cons, List.sum_cons]
+    omega
+
+theorem fuelOf_ge (m : Model) : m.classes.length + 1 ≤ fuelOf m := by
+  unfold fuelOf
+  have := sum_ge_length (m.classes.map (fun c => (c.rows.length + 1) * (c.attrs.length + 1)))
+    (by
+      intro x hx
+      obtain ⟨c, _, rfl⟩ := List.mem_map.mp hx
+      exact Nat.mul_pos (by omega) (by omega))
+  simp only [List.length_map] at this
+  omega
+
+section oracles
+variable (ss : List Stmt) (order pre suf : List (String × List Val)) (o : String × List Val)
+variable (g : ApiGuards ss order) (horder : order = pre ++ o :: suf) (m : Model) (inv : ApiInv ss pre m)
+include g horder inv
+
+/-- every state the batch relate of the new row passes through reads the existing rows as the loaded metamodel does -/
+theorem consBelow_of_agrees (r : Row) (m' : Model) (hag : Agrees (withRow m o.1 r) m' o.1 (rawRows ss pre o.1).length) :
+    ConsBelow ss order pre m' := by
+  have hall : m.assocs.map (·.1) = popAssocs ss := by rw [inv.assocs]; exact map_fst_assocs ss _
+  refine ⟨?_, ?_, ?_⟩
+  · rw [hag.stmts]; exact hall
+  · intro k u r' hr'
+    rw [hag.classes]
+    simp only [withRow, rowsOf_addRow]
+    have hu : u < (rawRows ss pre k).length := (List.getElem?_eq_some_iff.mp hr').1
+    by_cases hk : k = o.1
+    · subst hk
+      simp only [if_true]
+      have hrk := inv.rows o.1
+      unfold rowsOf at hrk
+      cases hc : findCls m.classes o.1 with
+      | none =>
+        rw [hc] at hrk
+        have : (rawRows ss pre o.1).length = 0 := by
+          have := congrArg List.length hrk; simpa using this.symm
+        omega
+      | some c =>
+        rw [hc] at hrk
+        simp only at hrk ⊢
+        rw [hrk, List.getElem?_append_left (by simpa using hu), List.getElem?_map, hr']
+        rfl
+    · simp only [hk, if_false]
+      rw [inv.rows k, List.getElem?_map, hr']
+      rfl
+  · intro p' hp' u hu
+    obtain ⟨q, hq⟩ := List.getElem?_of_mem hp'
+    have hlen : m'.assocs.length = m.assocs.length := by
+      have := congrArg List.length hag.stmts
+      simpa [withRow] using this
+    have hqlt : q < m.assocs.length := by
+      have := (List.getElem?_eq_some_iff.mp hq).1; omega
+    obtain ⟨p0, hp0q⟩ : ∃ p0, m.assocs[q]? = some p0 := ⟨_, List.getElem?_eq_getElem hqlt⟩
+    have hp0 : (withRow m o.1 r).assocs[q]? = some p0 := hp0q
+    have hfst : p'.1 = p0.1 := by
+      have h1 := congrArg (fun l => l[q]?) hag.stmts
+      simp only [List.getElem?_map, hq, hp0, Option.map_some, Option.some.injEq] at h1
+      exact h1
+    have htgt := hag.tgt q _ p' hp0 hq u (by
+      by_cases hk : p0.1.srcKind = o.1
+      · right
+        rw [hfst, hk] at hu
+        omega
+      · exact Or.inl hk)
+    rw [htgt]
+    have hmem : p0 ∈ m.assocs := List.mem_of_getElem? hp0q
+    rw [inv.assocs] at hmem
+    obtain ⟨a, ha, hae⟩ := List.mem_map.mp hmem
+    rw [← hae] at hfst ⊢
+    simp only at hfst ⊢
+    rw [hfst] at hu ⊢
+    rw [final_tgt_eq ss order g pre (o :: suf) horder a ha u hu]
+
+/-- the query's test on an existing referred row answers the key predicate, chained keys included -/
+theorem reads_oracle (a : AssocStmt) (ha : a ∈ popAssocs ss) (hk : a.srcKind = o.1)
+    (hnn : ∀ p ∈ keyPairs a, isNull ((rawRow ss o).get p.1) = false)
+    (r : Row) (m' : Model) (hag : Agrees (withRow m o.1 r) m' o.1 (rawRows ss pre o.1).length)
+    (j : Nat) (t : Row) (htj : (rawRows ss pre a.tgtKind)[j]? = some t) :
+    rowMatches m' (fuelOf (withRow m o.1 r)) a.tgtKind j (kwargsOf a (rawRow ss o)) = some (matchesB a (rawRow ss o) t) := by
+  have hc := consBelow_of_agrees ss order pre suf o g horder m inv r m' hag
+  have hjlt : j < (rawRows ss pre a.tgtKind).length := (List.getElem?_eq_some_iff.mp htj).1
+  have hD : (popClasses ss).length ≤ fuelOf (withRow m o.1 r) := by
+    have := fuelOf_ge (withRow m o.1 r)
+    have hl : (withRow m o.1 r).classes.length = (popClasses ss).length := by
+      simp only [withRow, addRow, List.length_map]; exact inv.ncls
+    omega
+  have htfin : (rawRows ss order a.tgtKind)[j]? = some t := by
+    rw [tgt_prefix ss order pre suf o g horder a, List.getElem?_append_left hjlt]
+    exact htj
+  have hjfin : j < (rawRows ss order a.tgtKind).length := (List.getElem?_eq_some_iff.mp htfin).1
+  -- what each identifying attribute of the referred row reads
+  have hread : ∀ tk, ∃ v, readAttr m' (fuelOf (withRow m o.1 r)) a.tgtKind j tk = some v ∧ (v = t.get tk ∨ v = .none) ∧
+      readAttr (loaded ss order) (fuelOf (withRow m o.1 r)) a.tgtKind j tk = some v := by
+    intro tk
+    have hterm := g.readsTerminate a.tgtKind j tk hjfin
+    obtain ⟨v, hv⟩ := Option.isSome_iff_exists.mp hterm
+    have hvF := readAttr_mono (loaded ss order) hD a.tgtKind j tk v hv
+    refine ⟨v, ?_, readAttr_loaded_value ss order g _ _ _ _ t v htfin hvF, hvF⟩
+    rw [readAttr_cons ss order g pre (o :: suf) horder m' hc _ _ _ _ hjlt]
+    exact hvF
+  rw [rowMatches_of_reads m' _ a.tgtKind j (kwargsOf a (rawRow ss o))
+    (fun tk => (readAttr m' (fuelOf (withRow m o.1 r)) a.tgtKind j tk).getD .none)
+    (by
+      intro kv _
+      obtain ⟨v, hv, _, _⟩ := hread kv.1
+      rw [hv]; rfl)]
+  congr 1
+  rw [Bool.eq_iff_iff]
+  unfold kwargsOf
+  rw [List.all_map, all_zip_swap a.srcKeys a.tgtKeys, matchesB_iff]
+  simp only [List.all_eq_true, Function.comp, beq_iff_eq]
+  have hsfin : (rawRows ss order a.srcKind)[(rawRows ss pre a.srcKind).length]? = some (rawRow ss o) := by
+    rw [src_final ss order pre suf o g horder a hk]
+    simp
+  constructor
+  · intro h p hp
+    obtain ⟨v, hv, hor, _⟩ := hread p.2
+    have := h p hp
+    rw [hv] at this
+    simp only [Option.getD_some] at this
+    refine ⟨hnn p hp, ?_⟩
+    rcases hor with hvr | hvn
+    · rw [← this, hvr]
+    · rw [hvn] at this
+      have hn := hnn p hp
+      rw [← this] at hn
+      simp [isNull] at hn
+  · intro h p hp
+    have hm : matchesB a (rawRow ss o) t = true := (matchesB_iff a _ t).mpr h
+    have hres := g.resolved a ha _ j _ t hsfin htfin hm p.2 (List.of_mem_zip hp).2
+    have hresF := readAttr_mono (loaded ss order) hD a.tgtKind j p.2 _ hres
+    obtain ⟨v, hv, _, hvM⟩ := hread p.2
+    rw [hvM] at hresF
+    cases hresF
+    rw [hv]
+    simp only [Option.getD_some]
+    exact ((h p hp).2).symm
+
+/-- the new row as a REFERRED row of `a` (all its identifying attributes for `a` being referential attributes it was
+    given): the query over the referring class tests the existing referring rows — none of them reads the new row's
+    key, because none of them matches it -/
+theorem srcSkip_oracle (a : AssocStmt) (ha : a ∈ popAssocs ss) (hk : a.tgtKind = o.1)
+    (r : Row) (m' : Model) (hag : Agrees (withRow m o.1 r) m' o.1 (rawRows ss pre o.1).length) :
+    relateLink (refsOf (popAssocs ss) o.1 (rawRow ss o)) (keyMap a) a.srcKind o.1 (rawRows ss pre o.1).length
+      a.rel a.tgtPhrase m' = (m', .ok) := by
+  obtain ⟨hk1, _, _, hk4⟩ := g.keys a ha
+  have hc := consBelow_of_agrees ss order pre suf o g horder m inv r m' hag
+  unfold relateLink
+  rw [keyMap_eq a hk1.src]
+  by_cases hgiven : (keyPairs a).all (fun p => ((refsOf (popAssocs ss) o.1 (rawRow ss o)).map (·.1)).contains p.2)
+  · simp only [hgiven, Bool.not_true, Bool.false_eq_true, if_false]
+    by_cases hnull : (keyPairs a).any (fun p => isNull (((refsOf (popAssocs ss) o.1 (rawRow ss o)).lookup p.2).getD .none))
+    · simp [hnull]
+    · simp only [hnull, Bool.false_eq_true, if_false]
+      by_cases hemp : (keyPairs a).isEmpty
+      · simp [hemp]
+      · simp only [hemp, Bool.false_eq_true, if_false]
+        apply relateQuery_none
+        intro j hj
+        have hne : ¬ a.srcKind = o.1 := fun h => hk4 (h.trans hk.symm)
+        have hrowsEq : rowsOf m'.classes a.srcKind = (rawRows ss pre a.srcKind).map (stripRow (referential (popAssocs ss) a.srcKind)) := by
+          rw [hag.classes]
+          simp only [withRow, rowsOf_addRow, hne, if_false]
+          exact inv.rows a.srcKind
+        have hjlt : j < (rawRows ss pre a.srcKind).length := by
+          have := List.mem_range.mp hj
+          rw [hrowsEq] at this
+          simpa using this
+        have hD : (popClasses ss).length ≤ fuelOf m' := by
+          have := fuelOf_ge m'
+          have hl : m'.classes.length = (popClasses ss).length := by
+            rw [hag.classes]; simp only [withRow, addRow, List.length_map]; exact inv.ncls
+          omega
+        have hsfin : (rawRows ss order a.srcKind)[j]? = some (rawRows ss pre a.srcKind)[j] := by
+          have e : rawRows ss order a.srcKind = rawRows ss pre a.srcKind ++ rawRows ss (o :: suf) a.srcKind := by
+            rw [horder, rawRows_append]
+          rw [e, List.getElem?_append_left hjlt]
+          exact List.getElem?_eq_getElem hjlt
+        have hjfin : j < (rawRows ss order a.srcKind).length := (List.getElem?_eq_some_iff.mp hsfin).1
+        have hread : ∀ sk, ∃ v, readAttr m' (fuelOf m') a.srcKind j sk = some v ∧
+            (v = (rawRows ss pre a.srcKind)[j].get sk ∨ v = .none) := by
+          intro sk
+          obtain ⟨v, hv⟩ := Option.isSome_iff_exists.mp (g.readsTerminate a.srcKind j sk hjfin)
+          have hvF := readAttr_mono (loaded ss order) hD a.srcKind j sk v hv
+          refine ⟨v, ?_, readAttr_loaded_value ss order g _ _ _ _ _ v hsfin hvF⟩
+          rw [readAttr_cons ss order g pre (o :: suf) horder m' hc _ _ _ _ hjlt]
+          exact hvF
+        rw [rowMatches_of_reads m' _ a.srcKind j _
+          (fun sk => (readAttr m' (fuelOf m') a.srcKind j sk).getD .none)
+          (by
+            intro kv _
+            obtain ⟨v, hv, _⟩ := hread kv.1
+            rw [hv]; rfl)]
+        congr 1
+        rw [Bool.eq_false_iff]
+        intro hall
+        -- then the existing referring row would match the new row
+        have hm : matchesB a (rawRows ss pre a.srcKind)[j] (rawRow ss o) = true := by
+          rw [matchesB_iff]
+          intro p hp
+          rw [List.all_map] at hall
+          simp only [List.all_eq_true, Function.comp, beq_iff_eq] at hall
+          have hp' := hall p hp
+          obtain ⟨v, hv, hor⟩ := hread p.1
+          rw [hv] at hp'
+          simp only [Option.getD_some] at hp'
+          have hnn : isNull (((refsOf (popAssocs ss) o.1 (rawRow ss o)).lookup p.2).getD .none) = false := by
+            cases hq : isNull (((refsOf (popAssocs ss) o.1 (rawRow ss o)).lookup p.2).getD .none) with
+            | false => rfl
+            | true =>
+              exfalso; apply hnull
+              simp only [List.any_eq_true]
+              exact ⟨p, hp, hq⟩
+          have hval : ((refsOf (popAssocs ss) o.1 (rawRow ss o)).lookup p.2).getD .none = (rawRow ss o).get p.2 := by
+            simp only [List.all_eq_true, List.contains_iff_mem] at hgiven
+            have hin := hgiven p hp
+            unfold refsOf at hin ⊢
+            obtain ⟨e, he, hek⟩ := List.mem_map.mp hin
+            have hq := (List.mem_filter.mp he).2
+            rw [lookup_filter_fst (rawRow ss o) (fun x => (referential (popAssocs ss) o.1).contains x) p.2]
+            rw [hek] at hq
+            simp only [hq, if_true]
+            exact (get_eq_lookup_getD _ _).symm
+          rcases hor with hvr | hvn
+          · have e : (rawRows ss pre a.srcKind)[j].get p.1 = (rawRow ss o).get p.2 := by
+              rw [← hvr, hp', hval]
+            exact ⟨by rw [e, ← hval]; exact hnn, e⟩
+          · rw [hvn] at hp'
+            rw [← hp'] at hnn
+            simp [isNull] at hnn
+        have := g.referredFirst a ha pre o suf horder hk.symm _ (List.getElem_mem hjlt)
+        rw [hm] at this
+        cases this
+  · have hg' : ((keyPairs a).all (fun p => ((refsOf (popAssocs ss) o.1 (rawRow ss o)).map (·.1)).contains p.2)) = false := by
+      simpa using hgiven
+    simp only [hg', Bool.not_false, if_true]
+
+end oracles
+
+theorem apiNew_step (ss : List Stmt) (order pre suf : List (String × List Val)) (o : String × List Val)
+    (g : ApiGuards ss order) (horder : order = pre ++ o :: suf) (m : Model) (inv : ApiInv ss pre m) :
+    ∃ m', apiNew m o.1 o.2 = (m', .ok) ∧ ApiInv ss (pre ++ [o]) m' := by
+  have ho : o ∈ order := by rw [horder]; simp
+  obtain ⟨hdecl, hlen⟩ := g.declared o ho
+  obtain ⟨c0, hc0⟩ := Option.isSome_iff_exists.mp hdecl
+  have hattrsOf : attrsOf ss o.1 = c0.attrs := by simp [attrsOf, hc0]
+  have hcm := inv.attrs o.1
+  rw [hc0] at hcm
+  obtain ⟨c, hc, hca⟩ : ∃ c, findCls m.classes o.1 = some c ∧ c.attrs = c0.attrs := by
+    cases h : findCls m.classes o.1 with
+    | none => simp [h] at hcm
+    | some c => exact ⟨c, rfl, by simpa [h] using hcm⟩
+  have hall : m.assocs.map (·.1) = popAssocs ss := by rw [inv.assocs]; exact map_fst_assocs ss _
+  have hs : newGiven c o.2 = rawRow ss o := by simp [newGiven, rawRow, mkRow, hattrsOf, hca]
+  have hrows : c.rows = (rawRows ss pre o.1).map (stripRow (referential (popAssocs ss) o.1)) := by
+    have := inv.rows o.1
+    simpa [rowsOf, hc] using this
+  have hi : c.rows.length = (rawRows ss pre o.1).length := by rw [hrows]; simp
+  have hnames : (rawRow ss o).map (·.1) = (attrsOf ss o.1).map (·.1) := names_mkRow_none _ _ hlen
+  -- what `relateLinks` needs to know
+  have hready : ∀ q p, m.assocs[q]? = some p →
+      LinkReady (m.assocs.map (·.1)) o.1 (newGiven c o.2) c.rows.length
+        (withRow m o.1 (stripRow (referential (m.assocs.map (·.1)) o.1) (newGiven c o.2))) (rawRows ss pre) q p.1 p.2 := by
+    intro q p hq
+    rw [inv.assocs, List.getElem?_map] at hq
+    cases haq : (popAssocs ss)[q]? with
+    | none => simp [haq] at hq
+    | some a =>
+      simp only [haq, Option.map_some, Option.some.injEq] at hq
+      subst hq
+      have ha : a ∈ popAssocs ss := List.mem_of_getElem? haq
+      obtain ⟨hk1, hk2, hk3, hk4⟩ := g.keys a ha
+      rw [hall, hs]
+      refine ⟨hk1, hk2, hk3, hk4, ha, fun _ => g.resolves q a haq, ?_, ?_, ?_, ?_, ?_, ?_⟩
+      · intro hk sk hsk
+        rw [hnames, ← hk]
+        exact g.srcDeclared a ha sk hsk
+      · intro hk
+        have hne : ¬ a.tgtKind = o.1 := fun h => hk4 (hk.trans h.symm)
+        simp only [withRow, rowsOf_addRow, hne, if_false]
+        rw [inv.rows a.tgtKind]; simp
+      · -- the query's test answers the key predicate (identifying attributes may be read through chains)
+        intro hk hnn m' hag j t htj
+        rw [hi] at hag
+        exact reads_oracle ss order pre suf o g horder m inv a ha hk hnn _ m' hag j t htj
+      · -- as a referred row the new row is matched by no existing referring row: nothing to relate
+        intro hk m' hag
+        rw [hi] at hag ⊢
+        exact srcSkip_oracle ss order pre suf o g horder m inv a ha hk _ m' hag
+      · intro hk j hj
+        simp only
+        refine ⟨?_, ?_, ?_⟩
+        · intro hmem
+          have := mem_nestedJoin_src_lt a _ _ j _ hmem
+          rw [hi, ← hk] at this
+          exact Nat.lt_irrefl _ this
+        · intro hsm
+          -- the referred row `j` may have at most one referring row: none so far, since the new one matches
+          obtain ⟨t, htj, hmt⟩ := (mem_selectIdx_zero _ _ j).mp hj
+          have htm : t ∈ rawRows ss order a.tgtKind := by
+            rw [tgt_prefix ss order pre suf o g horder a]
+            exact List.mem_append_left _ (List.mem_of_getElem? htj)
+          have hcard := g.cardSrc a ha hsm t htm
+          rw [src_final ss order pre suf o g horder a hk, selectIdx_append] at hcard
+          have hone : (selectIdx (0 + (rawRows ss pre a.srcKind).length) (rawRow ss o :: rawRows ss suf a.srcKind)
+              (fun s => matchesB a s t)).length ≥ 1 := by
+            simp only [selectIdx, enumFrom, List.filterMap_cons, hmt, if_true, List.length_cons]
+            omega
+          have hzero : (selectIdx 0 (rawRows ss pre a.srcKind) (fun s => matchesB a s t)).length = 0 := by
+            simp only [List.length_append] at hcard
+            omega
+          have hnil := List.length_eq_zero_iff.mp hzero
+          simp only [nestedJoin, htj]
+          exact hnil
+        · rw [hi, ← hk]
+          rw [nestedJoin_tgt_out]
+          exact List.not_mem_nil
+      · intro hk htm hne
+        simp only
+        refine ⟨by rw [hi, ← hk]; exact nestedJoin_tgt_out a _ _, ?_⟩
+        have hsm : rawRow ss o ∈ rawRows ss order a.srcKind := by
+          rw [src_final ss order pre suf o g horder a hk]; simp
+        have := g.cardTgt a ha htm (rawRow ss o) hsm
+        rw [tgt_prefix ss order pre suf o g horder a, selectIdx_append, List.length_append] at this
+        omega
+  refine ⟨_, apiNew_eq m o.1 o.2 c hc (rawRows ss pre) hready, ?_⟩
+  rw [hall, hs]
+  refine ⟨?_, ?_, ?_, by simp only [addRow, List.length_map]; exact inv.ncls⟩
+  · intro k
+    simp only [findCls_addRow]
+    rw [← inv.attrs k]
+    cases findCls m.classes k with
+    | none => rfl
+    | some d => by_cases hk : k = o.1 <;> simp [hk]
+  · intro k
+    simp only [rowsOf_addRow, rawRows_snoc, hc]
+    by_cases hk : k = o.1
+    · subst hk
+      simp [hrows]
+    · have : ¬ o.1 = k := fun e => hk e.symm
+      simp only [hk, this, if_false, List.append_nil]
+      exact inv.rows k
+  · simp only
+    rw [inv.assocs, List.map_map]
+    apply List.map_congr_left
+    intro a ha
+    obtain ⟨hk1, hk2, hk3, hk4⟩ := g.keys a ha
+    simp only [Function.comp, stepAssoc, rawRows_snoc]
+    by_cases hk : a.srcKind = o.1
+    · have hne : ¬ o.1 = a.tgtKind := fun h => hk4 (hk.trans h)
+      rw [if_pos hk, if_pos hk.symm, if_neg hne, List.append_nil]
+      rw [relatedTo_eq_addSource _ _ _ (by rw [hi, ← hk]; exact nestedJoin_tgt_out a _ _)]
+      rw [hi, ← hk, nestedJoin_snoc_src]
+    · have hne' : ¬ o.1 = a.srcKind := fun e => hk e.symm
+      rw [if_neg hk, if_neg hne', List.append_nil]
+      by_cases ht : o.1 = a.tgtKind
+      · rw [if_pos ht]
+        rw [nestedJoin_snoc_tgt_nomatch a _ _ _ (g.referredFirst a ha pre o suf horder ht)]
+      · rw [if_neg ht, List.append_nil]
+
+end Pyx.Load
+
+namespace Pyx.Load
+
+theorem apiRun_spec (ss : List Stmt) (order : List (String × List Val)) (g : ApiGuards ss order)
+    (suf : List (String × List Val)) :
+    ∀ (pre : List (String × List Val)) (m : Model), order = pre ++ suf → ApiInv ss pre m →
+      ∃ m', apiRun suf m = (m', suf.map (fun _ => Outcome.ok)) ∧ ApiInv ss order m' := by
+  induction suf with
+  | nil =>
+    intro pre m horder inv
+    refine ⟨m, rfl, ?_⟩
+    rw [horder, List.append_nil]
+    exact inv
+  | cons o suf ih =>
+    intro pre m horder inv
+    obtain ⟨m1, h1, inv1⟩ := apiNew_step ss order pre suf o g horder m inv
+    obtain ⟨m', h2, inv'⟩ := ih (pre ++ [o]) m1 (by rw [horder]; simp) inv1
+    refine ⟨m', ?_, inv'⟩
+    simp only [apiRun, h1, h2, List.map_cons]
+
+theorem length_popUniques (ss : List Stmt) (cs : List Cls) : (popUniques ss cs).length = cs.length := by
+  unfold popUniques
+  induction ss generalizing cs with
+  | nil => rfl
+  | cons s ss ih =>
+    simp only [List.foldl_cons]
+    rw [ih]
+    cases s with
+    | uniq k n as =>
+      simp only [defineUnique]
+      by_cases h : as.isEmpty <;> simp [h]
+    | cls _ _ => rfl
+    | assoc _ => rfl
+    | insert _ _ _ => rfl
+
+theorem apiInv_init (ss : List Stmt) : ApiInv ss [] (schemaModel ss) := by
+  refine ⟨?_, ?_, ?_, length_popUniques ss _⟩
+  · intro k
+    simp only [schemaModel, findCls_popUniques]
+    cases findCls (popClasses ss) k <;> simp [applyUniqs]
+  · intro k
+    simp only [schemaModel, rowsOf, findCls_popUniques, rawRows, List.filter_nil, List.map_nil]
+    cases h : findCls (popClasses ss) k with
+    | none => rfl
+    | some c =>
+      have := (popClasses_rows_nil ss c (List.mem_of_find?_eq_some h)).1
+      simp [applyUniqs, this]
+  · simp only [schemaModel]
+    apply List.map_congr_left
+    intro a _
+    simp [rawRows, nestedJoin_nil_src]
+
+end Pyx.Load
+
+namespace Pyx.Load
+
+/-! ### without chained keys the two guards about reads hold -/
+
+theorem length_ge_two_of_mem {α : Type} {l : List α} {x y : α} (hx : x ∈ l) (hy : y ∈ l) (hne : x ≠ y) : 2 ≤ l.length := by
+  match l, hx, hy with
+  | [], hx, _ => cases hx
+  | [z], hx, hy =>
+    simp only [List.mem_singleton] at hx hy
+    exact absurd (hx.trans hy.symm) hne
+  | _ :: _ :: _, _, _ => simp
+
+theorem kind_declared_of_accepted (ss : List Stmt) (hacc : accepted ss = true) (a : AssocStmt) (ha : a ∈ popAssocs ss) :
+    a.srcKind ∈ (popClasses ss).map (·.kind) ∧ a.tgtKind ∈ (popClasses ss).map (·.kind) := by
+  have hs : Stmt.assoc a ∈ ss := by
+    unfold popAssocs at ha
+    obtain ⟨s, hs, hsa⟩ := List.mem_filterMap.mp ha
+    cases s with
+    | assoc b => simp only [Option.some.injEq] at hsa; subst hsa; exact hs
+    | cls _ _ => simp at hsa
+    | uniq _ _ _ => simp at hsa
+    | insert _ _ _ => simp at hsa
+  unfold accepted at hacc
+  simp only [Bool.and_eq_true, List.all_eq_true] at hacc
+  have := hacc.2 _ hs
+  simp only [Bool.and_eq_true, List.contains_iff_mem] at this
+  exact ⟨this.1.1, this.1.2⟩
+
+/-- the guards `readsTerminate` and `resolved` for a schema without chained keys (every identifying attribute used
+    as a key is stored, none is referential in its own class): reads end after at most two steps -/
+theorem reads_of_noChain (ss : List Stmt) (order : List (String × List Val))
+    (hschema : ∀ s ∈ ss, ∀ k ns vs, s ≠ .insert k ns vs) (hacc : accepted ss = true)
+    (hkeys : ∀ a ∈ popAssocs ss, KeysOk a ∧ a.srcKeys.length = a.tgtKeys.length ∧ a.srcKeys ≠ [] ∧ a.srcKind ≠ a.tgtKind)
+    (hdecl : ∀ o ∈ order, (findCls (popClasses ss) o.1).isSome = true ∧ o.2.length = (attrsOf ss o.1).length)
+    (hnc : ∀ a ∈ popAssocs ss, ∀ t ∈ a.tgtKeys, t ∉ referential (popAssocs ss) a.tgtKind) :
+    (∀ k i x, i < (rawRows ss order k).length →
+      (readAttr (loaded ss order) (popClasses ss).length k i x).isSome = true) ∧
+    (∀ a ∈ popAssocs ss, ∀ (i j : Nat) s t, (rawRows ss order a.srcKind)[i]? = some s →
+      (rawRows ss order a.tgtKind)[j]? = some t → matchesB a s t = true →
+      ∀ tk ∈ a.tgtKeys, readAttr (loaded ss order) (popClasses ss).length a.tgtKind j tk = some (t.get tk)) := by
+  -- facts about the loaded metamodel that need only these guards
+  have hk : ∀ a ∈ popAssocs (ss ++ insertsOf order), KeysOk a := by
+    intro a ha
+    rw [popAssocs_append, popAssocs_inserts, List.append_nil] at ha
+    exact (hkeys a ha).1
+  have hrowsM : ∀ k, rowsOf (loaded ss order).classes k = rawRows ss order k := by
+    intro k
+    unfold loaded
+    rw [rowsOf_buildCore]
+    unfold clsSpec
+    rw [popClasses_append, popClasses_inserts, List.append_nil, insOf_append, insOf_schema ss hschema,
+      List.nil_append, insOf_inserts]
+    cases hc : findCls (popClasses ss) k with
+    | some c =>
+      simp only [rawRows, List.map_map]
+      apply List.map_congr_left
+      intro o ho
+      have hk : o.1 = k := by simpa using (List.mem_filter.mp ho).2
+      simp [rawRow, attrsOf, hk, hc]
+    | none =>
+      simp only
+      have hnil : order.filter (fun o => o.1 = k) = [] := by
+        rw [List.filter_eq_nil_iff]
+        intro o ho hk
+        have := (hdecl o ho).1
+        simp only [decide_eq_true_eq] at hk
+        rw [hk, hc] at this
+        cases this
+      simp [rawRows, hnil]
+  have hassM : (loaded ss order).assocs = (popAssocs ss).map (fun a =>
+      (a, nestedJoin a (rawRows ss order a.srcKind) (rawRows ss order a.tgtKind))) := by
+    unfold loaded
+    rw [buildCore_assocs _ hk, popAssocs_append, popAssocs_inserts, List.append_nil]
+    have : ∀ k, rowsOf (buildCore (ss ++ insertsOf order)).classes k = rawRows ss order k := hrowsM
+    simp only [this]
+  have hfstM : (loaded ss order).assocs.map (·.1) = popAssocs ss := by rw [hassM]; exact map_fst_assocs ss _
+  have hkinds : ((popClasses ss).map (·.kind)).Nodup := kinds_nodup_of_accepted hacc
+  -- a kind with rows is declared
+  have hdeclK : ∀ k, 0 < (rawRows ss order k).length → k ∈ (popClasses ss).map (·.kind) := by
+    intro k hpos
+    have hne : rawRows ss order k ≠ [] := by
+      intro h; rw [h] at hpos; simp at hpos
+    obtain ⟨r, hr⟩ := List.exists_mem_of_ne_nil _ hne
+    unfold rawRows at hr
+    obtain ⟨o, ho, _⟩ := List.mem_map.mp hr
+    obtain ⟨hom, hok⟩ := List.mem_filter.mp ho
+    have hk' : o.1 = k := by simpa using hok
+    obtain ⟨c, hc⟩ := Option.isSome_iff_exists.mp (hdecl o hom).1
+    rw [hk'] at hc
+    exact List.mem_map.mpr ⟨c, List.mem_of_find?_eq_some hc, findCls_some_kind hc⟩
+  have hstored : ∀ (d : Nat) (a : AssocStmt), a ∈ popAssocs ss → ∀ (j : Nat) (t : Row),
+      (rawRows ss order a.tgtKind)[j]? = some t → ∀ tk ∈ a.tgtKeys,
+      readAttr (loaded ss order) (d + 1) a.tgtKind j tk = some (t.get tk) := by
+    intro d a ha j t ht tk htk
+    rw [readAttr_stored _ d _ _ _ (by rw [hfstM]; exact hnc a ha tk htk), hrowsM, ht]
+    rfl
+  constructor
+  · intro k i x hi
+    have hkm := hdeclK k (by omega)
+    cases hD : (popClasses ss).length with
+    | zero =>
+      have : (popClasses ss).map (·.kind) = [] := by
+        rw [List.length_eq_zero_iff] at hD; rw [hD]; rfl
+      rw [this] at hkm; cases hkm
+    | succ d =>
+      simp only [readAttr, hfstM]
+      by_cases hx : (referential (popAssocs ss) k).contains x
+      · simp only [hx, if_true]
+        rcases readChain_cases (readAttr (loaded ss order) d) k i x (loaded ss order).assocs.reverse with
+          ⟨h1, _⟩ | ⟨p, hp, hpk, tk, j, hmem, hhead, hval⟩
+        · rw [h1]; rfl
+        · rw [List.mem_reverse, hassM] at hp
+          obtain ⟨a, ha, rfl⟩ := List.mem_map.mp hp
+          simp only at hpk hmem hhead hval
+          rw [hval]
+          have hj : j ∈ (nestedJoin a (rawRows ss order a.srcKind) (rawRows ss order a.tgtKind)).tgt i :=
+            List.mem_of_mem_head? hhead
+          obtain ⟨_, t, _, ht, _⟩ := (mem_nestedJoin_tgt a _ _ i j).mp hj
+          -- two distinct declared classes: the depth is at least two
+          obtain ⟨hsk, htk⟩ := kind_declared_of_accepted ss hacc a ha
+          have h2 : 2 ≤ ((popClasses ss).map (·.kind)).length :=
+            length_ge_two_of_mem hsk htk (hkeys a ha).2.2.2
+          simp only [List.length_map] at h2
+          obtain ⟨d', hd'⟩ : ∃ d', d = d' + 1 := ⟨d - 1, by omega⟩
+          rw [hd', hstored d' a ha j t ht tk (List.of_mem_zip hmem).2]
+          rfl
+      · simp only [hx, Bool.false_eq_true, if_false]
+        rfl
+  · intro a ha i j s t _ ht _ tk htk
+    have hjlt : 0 < (rawRows ss order a.tgtKind).length := by
+      have := (List.getElem?_eq_some_iff.mp ht).1; omega
+    have hkm := hdeclK a.tgtKind hjlt
+    cases hD : (popClasses ss).length with
+    | zero =>
+      have : (popClasses ss).map (·.kind) = [] := by
+        rw [List.length_eq_zero_iff] at hD; rw [hD]; rfl
+      rw [this] at hkm; cases hkm
+    | succ d => exact hstored d a ha j t ht tk htk
 
 end Pyx.Load
